@@ -155,10 +155,11 @@ func (v *Vue) evaluate(ctx VueContext, nodes []*html.Node, depth int) ([]*html.N
 			if err := v.evalVText(ctx, newNode); err != nil {
 				return nil, err
 			}
-			if err := v.evalVShow(ctx, newNode); err != nil {
+			if _, err := v.evalAttributes(ctx, newNode); err != nil {
 				return nil, err
 			}
-			if _, err := v.evalAttributes(ctx, newNode); err != nil {
+			// v-show runs after attribute binding so that its display:none also wins over a bound style
+			if err := v.evalVShow(ctx, newNode); err != nil {
 				return nil, err
 			}
 
